@@ -114,6 +114,12 @@ def python_side(ctx, m, proto, vals, data, tag, ex):
         r3 = py.copy(proto.name, "ndjson", "ndjson", r.out)
         ctx.ev(); ctx.count("ndjson->ndjson.py")
         judge_doc(ctx, m, proto, vals, r3, "py", tag + " ndjson->ndjson (python)", exp, r.out)
+    if any(isinstance(x, A) for _, t in proto.steps for x in walk_types(c.fq(t))):
+        # the same values handed to the Python NDJSON writer as Fortran-ordered arrays: the document lists array data in row-major order whatever the memory layout
+        pf = rt.PyEndpoint(m, mode="fortran")
+        r4 = pf.copy(proto.name, "bin", "ndjson", data)
+        ctx.ev(); ctx.count("bin->ndjson.py-fortran")
+        judge_doc(ctx, m, proto, vals, r4, "py-fortran", tag + " bin->ndjson (python, Fortran-ordered arrays)", exp, data)
 
 
 def run_model(ctx, key, pkg, nsets, flavors):
@@ -211,10 +217,14 @@ def matrix_package(quick: bool):
     # record fields whose optionality is only visible through a named alias (of an optional, of a nullable union): omitted when null like any other
     Aliased = Rec("MxAliased", [("id", P("int32")), ("remark", N("MxRemark")), ("nu", N("MxNullU")), ("direct", Opt(P("string"))), ("viaChain", N("MxRemark2"))])
     protos.append(Proto("MxAliasedOptional", [("plain", N("MxAliased")), ("items", S(N("MxAliased"))), ("vec", V(N("MxAliased"))), ("step", N("MxRemark")), ("ustep", N("MxNullU"))]))
+    # arrays of rank 2 and 3 of plain scalars (the element types a writer may copy in bulk), alone, in records and as stream items
+    ArrRec = Rec("MxArrRec", [("img", A(P("float32"), 2)), ("mask", A(P("bool"), 2)), ("n", P("int32"))])
+    protos.append(Proto("MxArrays", [("d2", A(P("float64"), ((None, 2), (None, 3)))), ("b2", A(P("bool"), 2)), ("i3", A(P("int16"), 3)), ("u2", A(P("uint8"), 2)), ("f2", A(P("float32"), 2)),
+                                     ("recs", S(N("MxArrRec"))), ("dyn", A(P("int64"), None)), ("frames", S(A(P("int32"), 2)))]))
     # arrays without a declared rank: rank 0 (one element, shape []) is a legal value
     protos.append(Proto("MxDynamic", [("d", A(P("int32"), None)), ("ds", S(A(P("float64"), None))), ("dv", V(A(P("int32"), None))), ("du", U((("arr", A(P("int32"), None)), ("text", P("string"))), False, True))]))
     return Pkg("Matrix", [Rc, Rc2, E1, F1, Gen, AllOpt, Al("MxLabel", P("string")), Al("MxCount", P("uint16")), Al("MxRemark", Opt(P("string"))),
-                          Al("MxNullU", U(((None, P("int32")), (None, P("string"))), True)), Al("MxRemark2", N("MxRemark")), Aliased] + protos)
+                          Al("MxNullU", U(((None, P("int32")), (None, P("string"))), True)), Al("MxRemark2", N("MxRemark")), Aliased, ArrRec] + protos)
 
 
 def run_matrix(ctx, quick):
